@@ -40,6 +40,13 @@ INVALID = [
     ("interface-field-object-not-member", "type Query { a: A } union U = B interface I { x: U } type B { y: Int } type A implements I { x: A }", 1),
     ("interface-argument-missing", "type Query { a: A } interface I { x(p: Int): Int } type A implements I { x: Int }", 1),
     ("interface-argument-wrong-type", "type Query { a: A } interface I { x(p: Int): Int } type A implements I { x(p: String): Int }", 1),
+    # arguments are invariant: the implementing field must accept exactly the interface's argument type (June 2018, Objects, type validation 4.d.ii)
+    ("interface-argument-made-non-null", "type Query { a: A } interface I { x(p: String): Int } type A implements I { x(p: String!): Int }", 1),
+    ("interface-argument-item-made-non-null", "type Query { a: A } interface I { x(p: [String]): Int } type A implements I { x(p: [String!]): Int }", 1),
+    ("interface-argument-list-made-non-null", "type Query { a: A } interface I { x(p: [String]): Int } type A implements I { x(p: [String]!): Int }", 1),
+    ("interface-argument-nested-item-made-non-null", "type Query { a: A } interface I { x(p: [[String]]): Int } type A implements I { x(p: [[String!]]): Int }", 1),
+    ("interface-argument-made-nullable", "type Query { a: A } interface I { x(p: String!): Int } type A implements I { x(p: String): Int }", 1),
+    ("interface-argument-to-list", "type Query { a: A } interface I { x(p: String): Int } type A implements I { x(p: [String]): Int }", 1),
     ("interface-extra-required-argument", "type Query { a: A } interface I { x: Int } type A implements I { x(q: Int!): Int }", 1),
     ("union-member-not-object", "type Query { u: U } enum E { A } union U = E", 1),
     ("union-member-interface", "type Query { u: U } interface I { x: Int } type A implements I { x: Int } union U = I", 1),
@@ -54,6 +61,11 @@ INVALID = [
     ("directive-argument-output-type", "type Query { a: Int } type O { x: Int } directive @d(o: O) on FIELD", 1),
     ("two-violations", "type Query { a: I b: A } input I { x: Int } type A", 2),
     ("three-violations", "type Query { a: I b: A } input I { x: Int } type A union U", 3),
+    # several violations on ONE element: every one of them is reported
+    ("same-field-three-violations", "type Query { search(__where: Filter, like: Thing): Filter } input Filter { x: Int } type Thing { y: Int }", 3),
+    ("same-field-output-type-and-duplicate-argument-name", "type Query { f(__a: Int): In } input In { x: Int }", 2),
+    ("same-input-field-two-violations", "type Query { f(i: In): Int } type O { y: Int } input In { __x: O }", 2),
+    ("same-argument-two-violations", "type Query { f(__o: O): Int } type O { y: Int }", 2),
     ("covariance-and-missing", "type Query { a: A b: B } interface I { x: Int! y: Int } type A implements I { x: Int y: Int } type B implements I { x: Int! }", 2),
 ]
 
